@@ -257,8 +257,90 @@ func init() {
 	})
 }
 
+// c11SamePathTwice: patches that list one path several times under different names (each listing is an import of its
+// own), on files that import the path under those names.
+func c11SamePathTwice(ctx *core.Ctx, idx int, res *core.Result) {
+	r := ctx.Rand("c11twice", idx)
+	const P = "k8s.io/api/core/v1"
+	names := []string{"v1", "corev1", "apiv1", "k8score"}
+	r.Shuffle(len(names), func(i, j int) { names[i], names[j] = names[j], names[i] })
+	n1, n2 := names[0], names[1]
+	var patch, body string
+	var wantGone, wantKept, wantAdded []impSpec
+	specs := []impSpec{{n1, P}, {n2, P}}
+	use2 := r.Intn(2) == 0 // the second name is still referred to afterwards
+	switch r.Intn(2) {
+	case 0:
+		patch = fmt.Sprintf("@@\n@@\n-import %s %q\n-import %s %q\n+import core %q\n\n-%s.Pod\n+core.Pod\n", n1, P, n2, P, P, n1)
+		body = fmt.Sprintf("\tvar a %s.Pod\n\tuse(a)\n", n1)
+		wantGone, wantAdded = []impSpec{{n1, P}}, []impSpec{{"core", P}}
+		if use2 {
+			body += fmt.Sprintf("\tuse(%s.Other{})\n", n2)
+			wantKept = []impSpec{{n2, P}}
+		} else {
+			wantGone = append(wantGone, impSpec{n2, P})
+		}
+	default:
+		// the path on a context line without a name, and once more, named, on a '-' line
+		specs = []impSpec{{"", P}, {n1, P}}
+		patch = fmt.Sprintf("@@\n@@\n import %q\n-import %s %q\n\n-%s.Do()\n+v1.Do()\n", P, n1, P, n1)
+		if n1 == "v1" {
+			n1 = "corev1"
+			specs[1].Name = n1
+			patch = fmt.Sprintf("@@\n@@\n import %q\n-import %s %q\n\n-%s.Do()\n+v1.Do()\n", P, n1, P, n1)
+		}
+		body = fmt.Sprintf("\tv1.Other()\n\t%s.Do()\n", n1)
+		wantGone, wantKept = []impSpec{{n1, P}}, []impSpec{{"", P}}
+	}
+	others := append([]impSpec{}, c11Others...)
+	r.Shuffle(len(others), func(i, j int) { others[i], others[j] = others[j], others[i] })
+	specs = append(specs, others[:r.Intn(4)]...)
+	r.Shuffle(len(specs), func(i, j int) { specs[i], specs[j] = specs[j], specs[i] })
+	src := "package p\n\n" + renderImports(specs, r) + "\nfunc fnMain() {\n" + body + "}\n"
+	run := applyAPI(patch, []string{src})[0]
+	res.Evals++
+	rep := replayFiles(patch, src, run.Out)
+	if run.Pan != "" || run.Err != "" {
+		res.Violate("C11/engine-error", "same path listed twice: "+run.Pan+run.Err, rep)
+		return
+	}
+	in, _, err1 := importSet(src)
+	out, _, err2 := importSet(run.Out)
+	if err1 != nil || err2 != nil || run.Out == src {
+		res.Violate("C11/same-path-twice-not-applied", fmt.Sprint(err1, err2), rep)
+		return
+	}
+	fail := func(class, detail string) {
+		res.Violate("C11/"+class, fmt.Sprintf("[patch lists %s twice] %s\n  imports in:  %s\n  imports out: %s", P, detail, setString(in), setString(out)), rep)
+	}
+	for _, s := range wantGone {
+		if out[s] {
+			fail("minus-import-kept", "import "+s.String()+" is on a '-' line and nothing refers to "+s.Name+" any more, but it is still there")
+			return
+		}
+	}
+	for _, s := range append(wantKept, wantAdded...) {
+		if !out[s] {
+			fail("used-import-removed", "import "+s.String()+" must be there afterwards (still referred to, required by a context line, or added)")
+			return
+		}
+	}
+	for s := range in {
+		if s.Path != P && !out[s] {
+			fail("unmentioned-import-lost", "import "+s.String())
+			return
+		}
+	}
+	res.Ob("same-path-listed-twice", 1)
+	res.Sig("same-path-twice", use2, strings.Contains(patch, "\n import"))
+}
+
 func runC11(ctx *core.Ctx, idx int) *core.Result {
 	res := &core.Result{}
+	if idx%40 == 9 {
+		c11SamePathTwice(ctx, idx, res)
+		return res
+	}
 	r := ctx.Rand("c11", idx)
 	p := c11Patches[idx%len(c11Patches)]
 	pathP, pn, qn := c11P, "foo", "bar"
